@@ -246,6 +246,7 @@ void reset_run_generation() {
   s.observer = nullptr; s.observer_ctx = nullptr;
   s.next_file_id = 1;
   s.closed_fds.clear();
+  for (auto& c : s.harness_cursor) c = 0;
   s.pending_valid = false;
   s.window = kWinLow; s.policy = kAscending; s.hugetlb_grant = 0;
   s.rng = Rng(1);
